@@ -218,5 +218,8 @@ func (s *Session) Topics() ([]string, []byte, error) {
 
 // ID returns the session ID.
 func (s *Session) ID() string {
+	s.mu.Lock()
+	defer s.mu.Unlock()
+
 	return string(s.Cmsg.ClientID())
 }
